@@ -582,6 +582,9 @@ var setups = map[string][]string{
 	"selected-ro":       {"login", "examine"},
 	"after-close":       {"login", "select", "close"},
 	"after-unselect":    {"login", "examine", "unselect"},
+	// CLOSE / UNSELECT leave the selected state whichever way the mailbox was selected
+	"after-close-ro":    {"login", "examine", "close"},
+	"after-unselect-rw": {"login", "select", "unselect"},
 }
 
 func (x *hs) setupCmd(u int, what string) cmd {
@@ -642,7 +645,7 @@ func runC18(ctx *common.Ctx) error {
 	applyReplay(ctx)
 	thorough := ctx.Tier == "thorough"
 	res := ctx.Res
-	res.Rule = "every command the parser knows x every protocol state (not authenticated, authenticated, selected, selected read-only, after CLOSE, after UNSELECT) on fresh connections of rotating users, " +
+	res.Rule = "every command the parser knows x every protocol state (not authenticated, authenticated, selected, selected read-only, after SELECT+CLOSE, after EXAMINE+UNSELECT, after EXAMINE+CLOSE, after SELECT+UNSELECT) on fresh connections of rotating users, " +
 		"random command sequences over 4 connections moving between states, all credential pairs, jail latency; non-trivial = distinct (state, command, expected class); " +
 		"after every examined step fresh views of all 3 users are compared"
 	x := &hs{ctx: ctx}
@@ -713,11 +716,15 @@ func runC18(ctx *common.Ctx) error {
 	}
 
 	// ---- A. the command x state matrix ----
-	stateNames := []string{"not-authenticated", "authenticated", "selected", "selected-ro", "after-close", "after-unselect"}
+	stateNames := []string{"not-authenticated", "authenticated", "selected", "selected-ro", "after-close", "after-unselect",
+		"after-close-ro", "after-unselect-rw"}
 	rot := 0
 	ncmds := len(x.repertoire(0, ""))
 	for _, sn := range stateNames {
 		for ci := 0; ci < ncmds; ci++ {
+			if (sn == "after-close-ro" || sn == "after-unselect-rw") && x.repertoire(0, "")[ci].Class != "selected" {
+				continue // the other classes are covered by after-close / after-unselect
+			}
 			u := rot % len(users)
 			rot++
 			if err := x.ensureMessages(u); err != nil {
@@ -898,7 +905,7 @@ func stopBounded(s *srv.Server) {
 
 func (x *hs) jail(thorough bool) error {
 	res := x.ctx.Res
-	jailTime := 300 * time.Millisecond
+	jailTime := 200 * time.Millisecond
 	const eps = 5 * time.Millisecond
 	var su []srv.User
 	for _, u := range users[:2] {
@@ -925,8 +932,10 @@ func (x *hs) jail(thorough bool) error {
 		{bad(1), bad(2), {2, "nobody", "pw-bob"}, bad(1)},                        // three connections/kinds, 4th fails too
 		{bad(1), bad(1), {2, "alice", "pw-alice"}, bad(1), bad(1), bad(2), good}, // a success resets the count
 	}
+	// two jail rounds in a row, no success in between: the 4th and the 7th attempt must wait
+	scripts = append(scripts, []att{bad(1), bad(1), bad(1), bad(1), bad(1), bad(1), good})
 	if thorough {
-		scripts = append(scripts, []att{bad(1), bad(1), bad(1), bad(1), bad(1), bad(1), good}) // two jails in a row
+		scripts = append(scripts, []att{bad(1), bad(2), bad(1), bad(2), bad(1), bad(2), bad(1), bad(2), bad(1), good}) // three rounds
 	}
 	for si, sc := range scripts {
 		scen := fmt.Sprintf("jail #%d", si)
